@@ -58,7 +58,7 @@ Qed.
 
 Lemma create_batch_inv s u up price minp sd samt pd vs maxr rate start end_ s' :
   create_batch s u up price minp sd samt pd vs maxr rate start end_ = Ok s' ->
-  (maxr <= 30)%N /\
+  (maxr <= MaxExtendedRound)%N /\
   created s s' (new_auction (st_aseq s) Batch u up price sd samt pd vs start end_
                   (if start <=? st_now s then Started else StandBy) 0 minp maxr rate).
 Proof.
@@ -232,7 +232,7 @@ Inductive tx_shape (s : state) : op -> outcome -> state -> Prop :=
 | SCreate m a s' :
     is_create m = true -> created s s' a -> a_id a = st_aseq s ->
     a_status a = (if a_start a <=? st_now s then Started else StandBy) ->
-    (exists e, a_ends a = [e]) -> (a_max_round a <= 30)%N ->
+    (exists e, a_ends a = [e]) -> (a_max_round a <= MaxExtendedRound)%N ->
     (a_type a = FixedPrice -> a_max_round a = 0%N) ->
     tx_shape s (OTx m) Accepted s'
 | SCancel who id a s' :
@@ -394,7 +394,7 @@ Definition creation (s : state) (o : op) (out : outcome) (s' : state) (a : aucti
   (exists m, o = OTx m /\ is_create m = true) /\ out = Accepted /\
   st_auctions s' = st_auctions s ++ [a] /\ a_id a = st_aseq s /\ st_aseq s' = (st_aseq s + 1)%N /\
   a_status a = (if a_start a <=? st_now s then Started else StandBy) /\
-  (exists e, a_ends a = [e]) /\ (a_max_round a <= 30)%N /\ (a_type a = FixedPrice -> a_max_round a = 0%N).
+  (exists e, a_ends a = [e]) /\ (a_max_round a <= MaxExtendedRound)%N /\ (a_type a = FixedPrice -> a_max_round a = 0%N).
 
 Ltac shape_cases Sh :=
   destruct Sh as [o c tr s' -> | from to d amt b xs | ls | auth cfee bfee period p
